@@ -27,13 +27,13 @@ def run(chk, prog):
     f = ctx.fn
     cfg = ctx.cfg
     rem = ctx.calls(REMOVE)
-    names = sorted(ctx.const_str_of(t.args[1]) or "?" for bb, t in rem)
+    names = sorted(x for bb, t in rem for x in (const_strs_of(ctx, t.args[1]) or {"?"}))
     if not chk.require(names == ["snapshot.json", "timestamp.json"], "R1", f, "removes-both-online-files",
                        "step 1.9 removes %s; it must remove exactly the stored timestamp.json and snapshot.json" % names):
         return
     rb = sorted(bb for bb, _ in rem)
     first = rb[0]
-    ctl = cfg.control_switches(first)
+    ctl = control_switches_outside_loops(ctx, first)
     parses = sorted(bb for bb, _ in ctx.calls(*SER_PARSE))
     shipped_bb = parses[0] if parses else None
     roles_cmp = {}
@@ -95,10 +95,11 @@ def run(chk, prog):
         rem_pos.append(ctx.track_call(bb).pos_edges(0))
     if differs_edges:
         for (bb, t), pos in zip(rem, rem_pos):
-            p = cfg.witness_path(okb, (), starts=[e[1] for e in differs_edges], removed_blocks=[bb])
-            chk.require(p is None, "R1", f, "differs-implies-remove:%s" % (ctx.const_str_of(t.args[1])),
+            p = must_execute(ctx, [e[1] for e in differs_edges], okb, bb)
+            nm = "+".join(sorted(const_strs_of(ctx, t.args[1]) or {"?"}))
+            chk.require(p is None, "R1", f, "differs-implies-remove:%s" % nm,
                         "after the online keys were found to differ, Ok can be returned without removing the stored %s"
-                        % ctx.const_str_of(t.args[1]), ctx.site(bb), path=ctx.describe_path(p))
+                        % nm, ctx.site(bb), path=ctx.describe_path(p))
         # a failing removal must fail the load
         all_neg = []
         for bb, t in rem:
